@@ -9,7 +9,7 @@ register(Prop(
     oracle=by_core({'conc': eq_lines, 'broker': _pb.broker_oracle}),
     nontrivial=by_core({'conc': lambda op, out: out != 'reset', 'broker': _pb.broker_nontrivial}),
     spec_total=False, unspecified=_pb.overlap_episode,
-    classes={'empty_level': _pb.has_empty_level, 'cb_retain_forward': _pb.cb_retain_forward},
+    classes={'empty_level': _pb.has_empty_level},
     assumptions=[
         "concurrent runs are unserialised real executions (2-8 publishers, payloads up to 7000 bytes through a 16 KiB outgoing ring so packets wrap mid-packet); they sample interleavings, the theorem quantifies over all of them",
         "the outgoing ring itself (wrap-around, blocking) is Core D (C14/C15); the write-lock model treats the ring as an unbounded array",
